@@ -13,15 +13,17 @@ PROOFS = [p for p in c20.all_proofs() if p.name == 'too_big_for_nl_max'] + opt_p
 EXPLANATION = ('Kernel of C16. Value readers: BoundedOption::validate accepts exactly [min, max] and emits one diagnostic otherwise; read_number<signed/unsigned> and '
                'Option<bool>::read either reject the text (at least one diagnostic, the option exactly as before) or accept it (no diagnostic; the value stored is the '
                'number written - no truncation -, or plus/minus the value of the referenced numeric option, and lies inside the documented range); every pointer handed '
-               'to the registry lookup and to the diagnostic stays inside the value text (memory safety for every text, including the empty one). Cross-option '
+               'to the registry lookup and to the diagnostic stays inside the value text (memory safety for every text, including the empty one). The line dispatcher process_option_line: a diagnosed line has no other effect, for any command word and any number of arguments. Cross-option '
                'consistency: too_big_for_nl_max() returns normally only if every blank-line count option of the registry is <= nl_max and otherwise exits with EX_CONFIG.')
-K = ['K1 BoundedOption::validate / Option::validate', 'K2 read_number<signed>, read_number<unsigned>: assign only on success, value == text, in range, diagnostics', 'K3 Option<bool>::read', 'K4 too_big_for_nl_max']
+K = ['K5 process_option_line (whole dispatcher, any number of arguments): too few arguments / unknown option / unknown token / unknown language / empty include path / malformed version => one diagnostic and no other effect; type, set, macro-*, file_ext register every argument once, in order, with the right token; a known option is handed with its value to that option\'s reader exactly once; no out-of-range argument access, no uncaught conversion exception, no overflow in option_level(); read_version_part accepts exactly the numerals 0..1023',
+     'K1 BoundedOption::validate / Option::validate', 'K2 read_number<signed>, read_number<unsigned>: assign only on success, value == text, in range, diagnostics', 'K3 Option<bool>::read', 'K4 too_big_for_nl_max']
 G = ['the class templates Option<T> / BoundedOption<T,min,max> are represented by the shells of env/option_stub.h (min/max as arbitrary data members lo <= hi, virtual dispatch as a two-way branch); only the sliced function bodies are real',
      'libc strtol is a trusted model (value + end of the numeral prefix, ERANGE clipping); find_option returns "no option" or an arbitrary option whose name starts with a letter',
      'read_enum<T> (iarf / line_end / token_pos values): convert_string tables are proved under C15; the reference branch is not under contract',
-     'process_option_line / load_option_file (unknown option => diagnostic, no effect), include cycles, over-long lines: NOT covered',
+     'std::string / std::vector<std::string> / the registry map in process_option_line are ghost shells (a string = which command word it equals + emptiness + identity); split_args, to_lower, the process_option_line_compat_0_* renaming tables and add_keyword / extension_add / load_option_file are arbitrary recorders',
+     'load_option_file (line reading, include cycles, over-long lines), split_args (quoting): NOT covered',
      'main() calls too_big_for_nl_max() iff nl_max > 0 before any source is read']
 
 sys.path.insert(0, os.path.join(os.path.dirname(os.path.abspath(__file__)), '..', '..', 'tools'))
 import replay_lib  # noqa: E402
-REPLAY = replay_lib.make_replay(replay_lib.scenario_bad_numbers, replay_lib.scenario_too_big)
+REPLAY = replay_lib.make_replay(replay_lib.scenario_bad_numbers, replay_lib.scenario_bad_using, replay_lib.scenario_too_big)
